@@ -613,6 +613,79 @@ Section CursorText.
 End CursorText.
 
 
+(* ---------- encoding/base64 StdEncoding and strconv.Itoa / Atoi, as far as the cursor text needs them ---------- *)
+(* EncodeToString exactly; DecodeString on well-formed padded text (the skipping of CR/LF is not modelled);
+   Itoa for non-negative numbers; Atoi for plain digit strings (Go also accepts a sign). *)
+Definition b64char (i : N) : N :=
+  if i <? 26 then 65 + i else if i <? 52 then 97 + (i - 26) else if i <? 62 then 48 + (i - 52)
+  else if i =? 62 then 43 else 47.
+Definition b64val (c : N) : option N :=
+  if (65 <=? c) && (c <=? 90) then Some (c - 65)
+  else if (97 <=? c) && (c <=? 122) then Some (c - 97 + 26)
+  else if (48 <=? c) && (c <=? 57) then Some (c - 48 + 52)
+  else if c =? 43 then Some 62 else if c =? 47 then Some 63 else None.
+Definition pad : N := 61.
+
+Fixpoint b64enc (l : bytes) : bytes :=
+  match l with
+  | [] => []
+  | [a] => [b64char (a / 4); b64char ((a mod 4) * 16); pad; pad]
+  | [a; b] => [b64char (a / 4); b64char ((a mod 4) * 16 + b / 16); b64char ((b mod 16) * 4); pad]
+  | a :: b :: c :: r =>
+      b64char (a / 4) :: b64char ((a mod 4) * 16 + b / 16) :: b64char ((b mod 16) * 4 + c / 64)
+      :: b64char (c mod 64) :: b64enc r
+  end.
+
+Fixpoint b64dec (l : bytes) : option bytes :=
+  match l with
+  | [] => Some []
+  | c0 :: c1 :: c2 :: c3 :: r =>
+      match b64val c0, b64val c1 with
+      | Some v0, Some v1 =>
+          if c2 =? pad then
+            if (c3 =? pad) then match r with [] => Some [v0 * 4 + v1 / 16] | _ => None end else None
+          else match b64val c2 with
+               | None => None
+               | Some v2 =>
+                   if c3 =? pad then
+                     match r with [] => Some [v0 * 4 + v1 / 16; (v1 mod 16) * 16 + v2 / 4] | _ => None end
+                   else match b64val c3 with
+                        | None => None
+                        | Some v3 =>
+                            match b64dec r with
+                            | Some t => Some ((v0 * 4 + v1 / 16) :: ((v1 mod 16) * 16 + v2 / 4) :: ((v2 mod 4) * 64 + v3) :: t)
+                            | None => None
+                            end
+                        end
+               end
+      | _, _ => None
+      end
+  | _ => None
+  end.
+
+
+Fixpoint dec_digits (fuel : nat) (v : N) (acc : bytes) : bytes :=
+  match fuel with
+  | O => acc
+  | S f => let acc' := (48 + v mod 10) :: acc in
+           if v / 10 =? 0 then acc' else dec_digits f (v / 10) acc'
+  end.
+Definition itoa (p : nat) : bytes := dec_digits (S p) (N.of_nat p) [].
+Fixpoint atoi_acc (l : bytes) (acc : N) : option N :=
+  match l with
+  | [] => Some acc
+  | d :: r => if (48 <=? d) && (d <=? 57) then atoi_acc r (acc * 10 + (d - 48)) else None
+  end.
+Definition atoi (l : bytes) : option nat :=
+  match l with
+  | [] => None
+  | _ => match atoi_acc l 0 with Some v => Some (N.to_nat v) | None => None end
+  end.
+
+(* the cursor text with these functions *)
+Definition real_decode_scan_cursor (key : bytes) : outcome (bytes * mcursor) := decode_scan_cursor b64dec atoi key.
+Definition real_encode_mcursor (mc : mcursor) : bytes := encode_mcursor b64enc itoa mc.
+
 (* ---------- the pattern class the correspondence check generates: literals, '*', '?' ---------- *)
 Definition star : N := 42.
 Definition qmark : N := 63.
